@@ -3,6 +3,7 @@ from __future__ import annotations
 
 import ast
 import copy
+import os
 from typing import Dict, List, Optional, Set, Tuple
 
 from sa.analysis import VERSIONS, Analysis, vname
@@ -1223,12 +1224,7 @@ def read_units(code: bytes, R):
     return out
 
 
-def r03e(an, rep, rule="R03.E"):
-    """The function that lays the instructions out (operands, widths, jump relaxation, code units) folded over witness block lists; the bytes it
-    returns are read back the way CPython's disassembler reads them: same opcodes in order, every jump lands on the first code unit of the first
-    instruction of its target block, every other operand is the expected table position / number, widths never below what was recorded."""
-    from sa.feval import BlockOutcome, Obj
-    rep.rule(rule, "the encoder's layout folded over witness block lists; the bytes read back as CPython's disassembler reads them", 4)
+def _find_layout_fn(an):
     g = None
     for f in an.closure("to_code"):
         if isinstance(f.node, ast.FunctionDef) and f.cls is None and any(isinstance(n, ast.While) for n in ast.walk(f.node)) \
@@ -1236,6 +1232,10 @@ def r03e(an, rep, rule="R03.E"):
             g = f
     if g is None or len(g.params) != 4:
         raise AnalysisError("the encoder's layout function (blocks, additional args, free variables, kind of code) was not found")
+    return g
+
+
+def _layout_witnesses():
     J = lambda t, rel=True: ("J", t, rel)  # noqa: E731
     N, K, X, C, F = (lambda n, o=None: ("N", n, o)), (lambda v, o=None: ("K", v, o)), (lambda i: ("X", i)), (lambda n: ("C", n)), (lambda n: ("F", n))  # noqa: E731
     fill = [("LOAD_CONST", K(7)), ("POP_TOP", None)]
@@ -1263,101 +1263,146 @@ def r03e(an, rep, rule="R03.E"):
         ("unreferenced names and constants behind the ones in use",
          [[("LOAD_NAME", N("first")), ("LOAD_ATTR", N("attr")), ("LOAD_CONST", K(1)), ("RETURN_VALUE", None)]], (), None, [N("second"), N("third"), K("unused")]),
     ]
-    for V in VERSIONS:
-        bad = []
-        for wname, wb, freevars, *rest in W:
-            kind = rest[0] if rest else None
-            extra_specs = rest[1] if len(rest) > 1 else []
-            ev, R = package_evaluator(an, g.module, V)
-            mk = ev.lib
+    return W
 
-            def arg_obj(spec):
-                if spec is None:
-                    return mk["NoArg"]()
-                if spec[0] == "J":
-                    return mk["Jump"](spec[1], spec[2])
-                if spec[0] == "N":
-                    return mk["Name"](spec[1], spec[2])
-                if spec[0] == "K":
-                    return mk["Constant"](spec[1], spec[2])
-                if spec[0] == "C":
-                    return mk["Cellvar"](spec[1])
-                if spec[0] == "F":
-                    return mk["Freevar"](spec[1])
-                return spec[1]
-            if any(op not in R["opmap"] for b in wb for op, *_ in b):
+
+def _layout_bad(an, g, V, W):
+    """The layout function folded over the block lists W under interpreter V: the list of witnesses that do not read back as given."""
+    from sa.feval import BlockOutcome, Obj
+    bad = []
+    for wname, wb, freevars, *rest in W:
+        kind = rest[0] if rest else None
+        extra_specs = rest[1] if len(rest) > 1 else []
+        ev, R = package_evaluator(an, g.module, V)
+        mk = ev.lib
+
+        def arg_obj(spec):
+            if spec is None:
+                return mk["NoArg"]()
+            if spec[0] == "J":
+                return mk["Jump"](spec[1], spec[2])
+            if spec[0] == "N":
+                return mk["Name"](spec[1], spec[2])
+            if spec[0] == "K":
+                return mk["Constant"](spec[1], spec[2])
+            if spec[0] == "C":
+                return mk["Cellvar"](spec[1])
+            if spec[0] == "F":
+                return mk["Freevar"](spec[1])
+            return spec[1]
+        if any(op not in R["opmap"] for b in wb for op, *_ in b):
+            continue
+        try:
+            blocks = tuple(tuple(mk["Instruction"](name=ins[0], arg=arg_obj(ins[1]), _n_args_override=(ins[2] if len(ins) > 2 else None), line_number=1) for ins in b) for b in wb)
+            btype = None if kind is None else mk["Function"](mk["Args"](), "doc" if kind == "doc" else None, None)
+            res = ev.call_method(g.node, blocks, tuple(arg_obj(x) for x in extra_specs), tuple(freevars), btype)
+        except BlockOutcome as o:
+            bad.append(f"{wname}: the layout stops at `{norm_src(o.node)[:60]}`")
+            continue
+        except AnalysisError:
+            raise
+        except Exception as ex:  # noqa: BLE001 - a gap of the evaluator, never a verdict
+            raise AnalysisError(f"{g.qual}: not evaluable on the witness blocks '{wname}' ({type(ex).__name__}: {ex})")
+        code = next((x for x in res if isinstance(x, (bytes, bytearray))), None) if isinstance(res, tuple) else None
+        tables = [x for x in res if isinstance(x, tuple)] if isinstance(res, tuple) else []
+        if code is None or len(tables) != 4:
+            raise AnalysisError(f"{g.qual}: the result on the witness blocks is not (code, mapping, names, varnames, cellvars, constants)")
+        names, varnames, cellvars, consts = tables
+        units = read_units(bytes(code), R)
+        flat = [ins for b in wb for ins in b]
+        if [u[2] for u in units] != [R["opmap"][ins[0]] for ins in flat]:
+            bad.append(f"{wname}: the code units read back as opcodes {[u[2] for u in units][:8]}..., expected {[R['opmap'][ins[0]] for ins in flat][:8]}...")
+            continue
+        starts, k = [], 0
+        for b in wb:
+            starts.append(units[k][0])
+            k += len(b)
+        scale = R["jump_scale"]
+        why = None
+        for (first, opoff, op, operand, n), ins in zip(units, flat):
+            spec = ins[1]
+            rec = ins[2] if len(ins) > 2 else None
+            if rec and n < rec:
+                why = f"{ins[0]} at {first} was recorded with {rec} code units and is written with {n}"
+            elif spec is None:
                 continue
-            try:
-                blocks = tuple(tuple(mk["Instruction"](name=ins[0], arg=arg_obj(ins[1]), _n_args_override=(ins[2] if len(ins) > 2 else None), line_number=1) for ins in b) for b in wb)
-                btype = None if kind is None else mk["Function"](mk["Args"](), "doc" if kind == "doc" else None, None)
-                res = ev.call_method(g.node, blocks, tuple(arg_obj(x) for x in extra_specs), tuple(freevars), btype)
-            except BlockOutcome as o:
-                bad.append(f"{wname}: the layout stops at `{norm_src(o.node)[:60]}`")
-                continue
-            except AnalysisError:
-                raise
-            except Exception as ex:  # noqa: BLE001 - a gap of the evaluator, never a verdict
-                raise AnalysisError(f"{g.qual}: not evaluable on the witness blocks '{wname}' ({type(ex).__name__}: {ex})")
-            code = next((x for x in res if isinstance(x, (bytes, bytearray))), None) if isinstance(res, tuple) else None
-            tables = [x for x in res if isinstance(x, tuple)] if isinstance(res, tuple) else []
-            if code is None or len(tables) != 4:
-                raise AnalysisError(f"{g.qual}: the result on the witness blocks is not (code, mapping, names, varnames, cellvars, constants)")
-            names, varnames, cellvars, consts = tables
-            units = read_units(bytes(code), R)
-            flat = [ins for b in wb for ins in b]
-            if [u[2] for u in units] != [R["opmap"][ins[0]] for ins in flat]:
-                bad.append(f"{wname}: the code units read back as opcodes {[u[2] for u in units][:8]}..., expected {[R['opmap'][ins[0]] for ins in flat][:8]}...")
-                continue
-            starts, k = [], 0
-            for b in wb:
-                starts.append(units[k][0])
-                k += len(b)
-            scale = R["jump_scale"]
-            why = None
-            for (first, opoff, op, operand, n), ins in zip(units, flat):
-                spec = ins[1]
-                rec = ins[2] if len(ins) > 2 else None
-                if rec and n < rec:
-                    why = f"{ins[0]} at {first} was recorded with {rec} code units and is written with {n}"
-                elif spec is None:
+            elif spec[0] == "J":
+                tgt = (opoff + 2 + operand * scale) if spec[2] else operand * scale
+                if op in R["hasjabs"] and spec[2] or op in R["hasjrel"] and not spec[2]:
                     continue
-                elif spec[0] == "J":
-                    tgt = (opoff + 2 + operand * scale) if spec[2] else operand * scale
-                    if op in R["hasjabs"] and spec[2] or op in R["hasjrel"] and not spec[2]:
-                        continue
-                    if tgt != starts[spec[1]]:
-                        why = f"{ins[0]} at {first} lands on {tgt}; block {spec[1]} begins at {starts[spec[1]]}"
-                elif spec[0] == "N" and (operand >= len(names) or names[operand] != spec[1]):
-                    why = f"{ins[0]} {spec[1]!r} has operand {operand}, co_names is {names}"
-                elif spec[0] == "K" and (operand >= len(consts) or consts[operand] != spec[1] or type(consts[operand]) is not type(spec[1])):
-                    why = f"{ins[0]} {spec[1]!r} has operand {operand}, co_consts is {consts}"
-                elif spec[0] == "C" and (operand >= len(cellvars) or cellvars[operand] != spec[1]):
-                    why = f"{ins[0]} cell {spec[1]!r} has operand {operand}, co_cellvars is {cellvars}"
-                elif spec[0] == "F" and operand != len(cellvars) + list(freevars).index(spec[1]):
-                    why = f"{ins[0]} free variable {spec[1]!r} has operand {operand}; CPython counts {len(cellvars)} cell(s) first, then {freevars}"
-                elif spec[0] == "X" and operand != spec[1]:
-                    why = f"{ins[0]} {spec[1]} has operand {operand}"
-                if why:
-                    break
-            if not why and extra_specs:
-                # first-use order of the instructions, then the unreferenced entries in the order given
-                en, ek = [], []
-                for ins in flat + [(None, x) for x in extra_specs]:
-                    sp = ins[1]
-                    if sp and sp[0] == "N" and sp[1] not in en:
-                        en.append(sp[1])
-                    if sp and sp[0] == "K" and sp[1] not in ek:
-                        ek.append(sp[1])
-                if list(names) != en or list(consts) != ek:
-                    why = f"co_names / co_consts are {names} / {consts}; entries without a position take the next free one in order of first use, unreferenced ones last: {tuple(en)} / {tuple(ek)}"
-            if not why and kind == "nodoc" and consts and isinstance(consts[0], str):
-                why = f"co_consts is {consts}: CPython reads a str at index 0 as the docstring of a function, the data says it has none"
-            if not why and kind == "doc" and (not consts or consts[0] != "doc"):
-                why = f"co_consts is {consts}: the docstring 'doc' is not its first entry"
-            if not why and kind == "nodoc" and len(consts) != len({(type(c), c) for c in consts}):
-                why = f"co_consts is {consts}: an entry is listed twice"
+                if tgt != starts[spec[1]]:
+                    why = f"{ins[0]} at {first} lands on {tgt}; block {spec[1]} begins at {starts[spec[1]]}"
+            elif spec[0] == "N" and (operand >= len(names) or names[operand] != spec[1]):
+                why = f"{ins[0]} {spec[1]!r} has operand {operand}, co_names is {names}"
+            elif spec[0] == "K" and (operand >= len(consts) or consts[operand] != spec[1] or type(consts[operand]) is not type(spec[1])):
+                why = f"{ins[0]} {spec[1]!r} has operand {operand}, co_consts is {consts}"
+            elif spec[0] == "C" and (operand >= len(cellvars) or cellvars[operand] != spec[1]):
+                why = f"{ins[0]} cell {spec[1]!r} has operand {operand}, co_cellvars is {cellvars}"
+            elif spec[0] == "F" and operand != len(cellvars) + list(freevars).index(spec[1]):
+                why = f"{ins[0]} free variable {spec[1]!r} has operand {operand}; CPython counts {len(cellvars)} cell(s) first, then {freevars}"
+            elif spec[0] == "X" and operand != spec[1]:
+                why = f"{ins[0]} {spec[1]} has operand {operand}"
             if why:
-                bad.append(f"{wname}: {why}")
+                break
+        if not why and extra_specs:
+            # first-use order of the instructions, then the unreferenced entries in the order given
+            en, ek = [], []
+            for ins in flat + [(None, x) for x in extra_specs]:
+                sp = ins[1]
+                if sp and sp[0] == "N" and sp[1] not in en:
+                    en.append(sp[1])
+                if sp and sp[0] == "K" and sp[1] not in ek:
+                    ek.append(sp[1])
+            if list(names) != en or list(consts) != ek:
+                why = f"co_names / co_consts are {names} / {consts}; entries without a position take the next free one in order of first use, unreferenced ones last: {tuple(en)} / {tuple(ek)}"
+        if not why and kind == "nodoc" and consts and isinstance(consts[0], str):
+            why = f"co_consts is {consts}: CPython reads a str at index 0 as the docstring of a function, the data says it has none"
+        if not why and kind == "doc" and (not consts or consts[0] != "doc"):
+            why = f"co_consts is {consts}: the docstring 'doc' is not its first entry"
+        if not why and kind == "nodoc" and len(consts) != len({(type(c), c) for c in consts}):
+            why = f"co_consts is {consts}: an entry is listed twice"
+        if why:
+            bad.append(f"{wname}: {why}")
+    return bad
+
+
+def _layout_chunk(args):
+    repo, V, W = args
+    from sa import model
+    model.REPO = repo
+    an = Analysis(repo)
+    try:
+        return _layout_bad(an, _find_layout_fn(an), V, W), None
+    except AnalysisError as ex:
+        return [], str(ex)
+
+
+def r03e(an, rep, rule="R03.E"):
+    """The function that lays the instructions out (operands, widths, jump relaxation, code units) folded over witness block lists; the bytes it
+    returns are read back the way CPython's disassembler reads them: same opcodes in order, every jump lands on the first code unit of the first
+    instruction of its target block, every other operand is the expected table position / number, widths never below what was recorded."""
+    from sa.feval import BlockOutcome, Obj
+    rep.rule(rule, "the encoder's layout folded over witness block lists; the bytes read back as CPython's disassembler reads them", 4)
+    g = _find_layout_fn(an)
+    W = _layout_witnesses()
+    deep = getattr(rep, "tier", "quick") == "thorough" and getattr(rep, "pid", "") == "C03"
+    for V in VERSIONS:
+        if deep:
+            # thorough tier of C03 itself: generated block lists (seeded by VERIF_SEED), folded on all cores
+            import concurrent.futures as cf
+            from .deep_fold import generated_programs
+            WG = W + generated_programs(getattr(rep, "seed", 0), 160)
+            n_w = max(1, min(16, os.cpu_count() or 1))
+            bad = []
+            with cf.ProcessPoolExecutor(max_workers=n_w) as ex:
+                for b_, gap in ex.map(_layout_chunk, [(an.prog.repo, V, WG[i::n_w]) for i in range(n_w)]):
+                    if gap:
+                        raise AnalysisError(gap)
+                    bad += b_
+            W_used = WG
+        else:
+            bad = _layout_bad(an, g, V, W)
+            W_used = W
         rep.add(rule, f"{g.qual}::layout of witness blocks [{vname(V)}]", not bad, loc(g.module, g.node),
-                f"{len(W)} witness block lists (equal relative jumps, prefixed block starts, jumps that grow, recorded widths, cell / free variables, repeated entries): read back as given" if not bad else
+                f"{len(W_used)} witness block lists (equal relative jumps, prefixed block starts, jumps that grow, recorded widths, cell / free variables, repeated entries): read back as given" if not bad else
                 bad[0] + (f" (+{len(bad) - 1} more)" if len(bad) > 1 else "") + " - CPython's disassembler reads something else than the data says")
